@@ -8,9 +8,9 @@ import Rscp.Gen.Leaves
 namespace Rscp.Tie.Config
 
 /-- source of `rscp_ClientConfig_check` is unchanged -/
-theorem shape_rscp_ClientConfig_check : Rscp.Gen.Shape.rscp_ClientConfig_check = "91342d5155280a08d4167cb847c81554" := rfl
+theorem shape_rscp_ClientConfig_check : Rscp.Gen.Shape.rscp_ClientConfig_check = "c43abdfa0313afb8329056985c93c189" := rfl
 /-- source of `rscp_NewClient` is unchanged -/
-theorem shape_rscp_NewClient : Rscp.Gen.Shape.rscp_NewClient = "d83d81ea5ff246ebda7275443d2c3e3a" := rfl
+theorem shape_rscp_NewClient : Rscp.Gen.Shape.rscp_NewClient = "a7f797eb98c9132e8f47d5f5d5d8a0b0" := rfl
 /-- leaf `check_noAddress`: source text and argument list are unchanged -/
 theorem leaf_check_noAddress_src : Rscp.Gen.Leaf.check_noAddress_src = "len(c.Address) == 0" := rfl
 theorem leaf_check_noAddress_args : Rscp.Gen.Leaf.check_noAddress_args = ["len(c.Address)"] := rfl
